@@ -157,3 +157,185 @@ def register(ex):
     ex.probe("pctspCheckTol", "Int × Int", "(-1, 100000)",
              "pctsp/env.py:check_solution_validity  `p.sum(-1) >= 1 - 1e-5` (signed tolerance, num/den)",
              compare_binop_consts(PC, "PCTSPEnv.check_solution_validity", "p.sum(-1)", 1))
+
+    # ---- which prize row is used where (PCTSP / SPCTSP bookkeeping) -----------------------------------------
+    SPC = "rl4co/envs/routing/spctsp/env.py"
+
+    def real_prize_selection(which):
+        """`real_prize = td["stochastic_prize"] if self.stochastic else td["deterministic_prize"]` in `_reset`:
+        which=0 → the stochastic branch reads 'stochastic_prize'; which=1 → the other branch reads 'deterministic_prize'"""
+        def run():
+            fn = func(PC, "PCTSPEnv._reset")
+            if fn is None:
+                return None
+            for n in ast.walk(fn):
+                if (isinstance(n, ast.Assign) and len(n.targets) == 1 and ex.norm(n.targets[0]) == "real_prize"
+                        and isinstance(n.value, ast.IfExp) and ex.norm(n.value.test) == "self.stochastic"):
+                    key = {"td['stochastic_prize']": "sto", "td['deterministic_prize']": "det"}
+                    b, o = key.get(ex.norm(n.value.body)), key.get(ex.norm(n.value.orelse))
+                    if b is None or o is None:
+                        return None
+                    return ("true" if b == "sto" else "false") if which == 0 else ("true" if o == "det" else "false")
+            return None
+        return run
+
+    def gathers_real_prize(qual, target):
+        """the statement assigning `target` reads td['real_prize'] (true) / another prize row (false)"""
+        def run():
+            fn = func(PC, qual)
+            if fn is None:
+                return None
+            for n in ast.walk(fn):
+                if isinstance(n, ast.Assign) and len(n.targets) == 1 and ex.norm(n.targets[0]) == target:
+                    txt = ex.norm(n.value)
+                    if "td['real_prize']" in txt:
+                        return "true"
+                    if "prize']" in txt:
+                        return "false"
+            return None
+        return run
+
+    def class_flag(rel, cls):
+        def run():
+            tree = ex.parse(rel)
+            c = ex.find_function(tree, cls) if tree else None
+            if c is None:
+                return None
+            for n in c.body:
+                if (isinstance(n, ast.Assign) and len(n.targets) == 1 and ex.norm(n.targets[0]) == "_stochastic"
+                        and isinstance(n.value, ast.Constant) and isinstance(n.value.value, bool)):
+                    return "true" if n.value.value else "false"
+            return None
+        return run
+
+    ex.probe("pctspStoBranchReadsSto", "Bool", "true",
+             "pctsp/env.py:_reset  `real_prize = td['stochastic_prize'] if self.stochastic else …` (stochastic branch)",
+             real_prize_selection(0))
+    ex.probe("pctspDetBranchReadsDet", "Bool", "true",
+             "pctsp/env.py:_reset  `real_prize = … if self.stochastic else td['deterministic_prize']` (other branch)",
+             real_prize_selection(1))
+    ex.probe("pctspStepGathersReal", "Bool", "true",
+             "pctsp/env.py:_step  `cur_total_prize = … + gather_by_index(td['real_prize'], current_node)`",
+             gathers_real_prize("PCTSPEnv._step", "cur_total_prize"))
+    ex.probe("pctspCheckGathersReal", "Bool", "true",
+             "pctsp/env.py:check_solution_validity  `prize = td['real_prize'][..., 1:]`",
+             gathers_real_prize("PCTSPEnv.check_solution_validity", "prize"))
+    ex.probe("pctspClassStochastic", "Bool", "false", "pctsp/env.py:PCTSPEnv  `_stochastic = False`", class_flag(PC, "PCTSPEnv"))
+    ex.probe("spctspClassStochastic", "Bool", "true", "spctsp/env.py:SPCTSPEnv  `_stochastic = True`", class_flag(SPC, "SPCTSPEnv"))
+
+    # ---- expression-level translation of the straight-line arithmetic --------------------------------------
+    # A selected Python expression is translated into a Lean lambda over named leaves (operators, operand order and
+    # parenthesisation preserved).  Anything outside the small language (+ − * unary − | & ~, listed leaves, integer
+    # literals, float literals bound to a leaf) makes the probe a pattern-miss (committed default kept, no alarm).
+    class Untranslatable(Exception):
+        pass
+
+    def tr(node, leaves):
+        txt = ex.norm(node)
+        for pat, name in leaves:
+            if (pat(txt, node) if callable(pat) else txt == pat.replace(" ", "").replace('"', "'")):
+                return name
+        if isinstance(node, ast.BinOp):
+            op = {ast.Add: "+", ast.Sub: "-", ast.Mult: "*", ast.BitOr: "||", ast.BitAnd: "&&"}.get(type(node.op))
+            if op is None:
+                raise Untranslatable(txt)
+            return f"({tr(node.left, leaves)} {op} {tr(node.right, leaves)})"
+        if isinstance(node, ast.UnaryOp) and isinstance(node.op, ast.USub):
+            return f"(-{tr(node.operand, leaves)})"
+        if isinstance(node, ast.UnaryOp) and isinstance(node.op, ast.Invert):
+            return f"(!{tr(node.operand, leaves)})"
+        if isinstance(node, ast.Constant) and isinstance(node.value, int) and not isinstance(node.value, bool):
+            return str(node.value)
+        raise Untranslatable(txt)
+
+    def expr_probe(rel, qual, select, leaves, params):
+        def run():
+            fn = func(rel, qual)
+            if fn is None:
+                return None
+            try:
+                node = select(fn)
+                if node is None:
+                    return None
+                body = tr(node, leaves)
+            except Untranslatable:
+                return None
+            if body.startswith("(") and body.endswith(")"):
+                body = body[1:-1]
+            return f"fun {' '.join(params)} => {body}"
+        return run
+
+    def assigned(target):
+        def sel(fn):
+            hits = [n.value for n in ast.walk(fn) if isinstance(n, ast.Assign) and len(n.targets) == 1
+                    and ex.norm(n.targets[0]) == target]
+            return hits[0] if len(hits) == 1 else None
+        return sel
+
+    def returned_last(fn):
+        rets = [n for n in fn.body if isinstance(n, ast.Return)]
+        return rets[-1].value if rets else None
+
+    def dict_value(key):
+        def sel(fn):
+            for n in ast.walk(fn):
+                if isinstance(n, ast.Dict):
+                    for k, v in zip(n.keys, n.values):
+                        if isinstance(k, ast.Constant) and k.value == key:
+                            return v
+            return None
+        return sel
+
+    def compare_side(left_prefix, side):
+        def sel(fn):
+            for n in ast.walk(fn):
+                if isinstance(n, ast.Compare) and len(n.ops) == 1 and ex.norm(n.left).startswith(left_prefix):
+                    return n.left if side == 0 else n.comparators[0]
+            return None
+        return sel
+
+    isnorm = lambda t, n: isinstance(n, ast.Call) and isinstance(n.func, ast.Attribute) and n.func.attr == "norm"
+    isgather = lambda key: (lambda t, n: isinstance(n, ast.Call) and t.startswith("gather_by_index(td['" + key + "']"))
+    isfloat = lambda t, n: isinstance(n, ast.Constant) and isinstance(n.value, float)
+    I3, I2, I1 = "Int → Int → Int → Int", "Int → Int → Int", "Int → Int"
+
+    ex.probe("opStepLenExpr", I2, "fun len d => len + d",
+             "op/env.py:_step  `tour_length = td['tour_length'] + (current_loc - previus_loc).norm(p=2, dim=-1)`",
+             expr_probe(OP, "OPEnv._step", assigned("tour_length"), [("td['tour_length']", "len"), (isnorm, "d")], ["len", "d"]))
+    ex.probe("opStepPrizeExpr", I2, "fun tot p => tot + p",
+             "op/env.py:_step  `current_total_prize = td['current_total_prize'] + gather_by_index(td['prize'], current_node, dim=-1)`",
+             expr_probe(OP, "OPEnv._step", assigned("current_total_prize"),
+                        [("td['current_total_prize']", "tot"), (isgather("prize"), "p")], ["tot", "p"]))
+    ex.probe("opStepCounterExpr", "Nat → Nat", "fun k => k + 1", "op/env.py:_step  `'i': td['i'] + 1`",
+             expr_probe(OP, "OPEnv._step", dict_value("i"), [("td['i']", "k")], ["k"]))
+    ex.probe("opMaskLenExpr", I2, "fun len d => len + d",
+             "op/env.py:get_action_mask  left side of `tour_length[..., None] + ‖locs − current_loc‖ > max_length`",
+             expr_probe(OP, "OPEnv.get_action_mask", compare_side("td['tour_length']", 0),
+                        [("td['tour_length'][...,None]", "len"), (isnorm, "d")], ["len", "d"]))
+    ex.probe("opMaskOrExpr", "Bool → Bool → Bool → Bool", "fun v v0 e => (v || v0) || e",
+             "op/env.py:get_action_mask  `mask = td['visited'] | td['visited'][..., 0:1] | exceeds_length`",
+             expr_probe(OP, "OPEnv.get_action_mask", assigned("mask"),
+                        [("td['visited']", "v"), ("td['visited'][...,0:1]", "v0"), ("exceeds_length", "e")], ["v", "v0", "e"]))
+    ex.probe("opResetBudgetExpr", I3, "fun L d eps => (L - d) - eps",
+             "op/env.py:_reset  `'max_length': td['max_length'][..., None] - ‖depot − locs‖ - 1e-6` (literal bound to eps)",
+             expr_probe(OP, "OPEnv._reset", dict_value("max_length"),
+                        [("td['max_length'][...,None]", "L"), (isnorm, "d"), (isfloat, "eps")], ["L", "d", "eps"]))
+    ex.probe("pctspStepPrizeExpr", I2, "fun tot p => tot + p",
+             "pctsp/env.py:_step  `cur_total_prize = td['cur_total_prize'] + gather_by_index(td['real_prize'], current_node)`",
+             expr_probe(PC, "PCTSPEnv._step", assigned("cur_total_prize"),
+                        [("td['cur_total_prize']", "tot"), (lambda t, n: isinstance(n, ast.Call) and t.startswith("gather_by_index(td['"), "p")], ["tot", "p"]))
+    ex.probe("pctspStepPenaltyExpr", I2, "fun tot p => tot + p",
+             "pctsp/env.py:_step  `cur_total_penalty = td['cur_total_penalty'] + gather_by_index(td['penalty'], current_node)`",
+             expr_probe(PC, "PCTSPEnv._step", assigned("cur_total_penalty"),
+                        [("td['cur_total_penalty']", "tot"), (isgather("penalty"), "p")], ["tot", "p"]))
+    ex.probe("pctspStepCounterExpr", "Nat → Nat", "fun k => k + 1", "pctsp/env.py:_step  `'i': td['i'] + 1`",
+             expr_probe(PC, "PCTSPEnv._step", dict_value("i"), [("td['i']", "k")], ["k"]))
+    ex.probe("pctspMaskOrExpr", "Bool → Bool → Bool", "fun v v0 => v || v0",
+             "pctsp/env.py:get_action_mask  `mask = td['visited'] | td['visited'][..., 0:1]`",
+             expr_probe(PC, "PCTSPEnv.get_action_mask", assigned("mask"),
+                        [("td['visited']", "v"), ("td['visited'][...,0:1]", "v0")], ["v", "v0"]))
+    ex.probe("pctspRewardExpr", I3, "fun saved length total => saved - (length + total)",
+             "pctsp/env.py:_get_reward  `return saved_penalty.sum(-1) - (length + td['penalty'][..., 1:].sum(-1))`",
+             expr_probe(PC, "PCTSPEnv._get_reward", returned_last,
+                        [("saved_penalty.sum(-1)", "saved"), ("length", "length"),
+                         (lambda t, n: isinstance(n, ast.Call) and t.startswith("td['penalty'][") and t.endswith(".sum(-1)"), "total")], ["saved", "length", "total"]))
